@@ -239,6 +239,48 @@ fn structural(r: &mut Report, t: &RoutingTable, v: &View, case: &dyn Fn() -> Val
     ok
 }
 
+/// A directed history for the replacement rule: one bucket is filled to 20 entries a second apart, some of its
+/// members (not the newest) are heard from again - which moves them to the back of the least-recently-seen
+/// order -, more than 15 minutes pass, some members are refreshed once more, and new ids arrive for that
+/// bucket one after the other. Each arrival may only replace the entry that was heard from longest ago.
+pub fn refresh_order_sequence(r: &mut Report, clock: &Clock, rng: &mut Rng, case_id: u64) {
+    let table_id: [u8; 20] = rng.array();
+    let bucket_byte = rng.usize(3); // the bucket at distance 160, 159 or 158 .. (first differing bit within the first byte)
+    let in_bucket = |rng: &mut Rng| -> [u8; 20] {
+        let mut id: [u8; 20] = rng.array();
+        // same prefix as the table id up to bit `bucket_byte`, that bit flipped
+        let mask: u8 = 0x80 >> bucket_byte;
+        let keep: u8 = !(0xffu8 >> bucket_byte);
+        id[0] = (table_id[0] & keep) | ((table_id[0] ^ mask) & mask) | (id[0] & (mask - 1));
+        id
+    };
+    let mut ops = vec![Op::Rekey { id: table_id }];
+    let mut members: Vec<Entry> = vec![];
+    for _ in 0..20 {
+        let e = (in_bucket(rng), SocketAddrV4::new(pub_ip(rng), 6881));
+        members.push(e);
+        ops.push(Op::Add { id: e.0, addr: e.1, created_ago: 0 });
+        ops.push(Op::Advance { ns: 1_000_000_000 });
+    }
+    for round in 0..2 {
+        let k = 1 + rng.usize(8);
+        for _ in 0..k {
+            let e = members[rng.usize(members.len() - 1)];
+            ops.push(Op::Add { id: e.0, addr: e.1, created_ago: 0 });
+            ops.push(Op::Advance { ns: 1_000_000_000 + rng.below(5_000_000_000) });
+        }
+        if round == 0 {
+            ops.push(Op::Advance { ns: (15 * 60 + 1 + rng.below(300)) * 1_000_000_000 });
+        }
+    }
+    for _ in 0..1 + rng.usize(6) {
+        ops.push(Op::Add { id: in_bucket(rng), addr: SocketAddrV4::new(pub_ip(rng), 6881), created_ago: 0 });
+        ops.push(Op::Advance { ns: 1_000_000_000 });
+    }
+    r.count("refresh_order_sequences");
+    run_sequence(r, clock, rng, 0, case_id, Some(ops));
+}
+
 pub fn run_sequence(r: &mut Report, clock: &Clock, rng: &mut Rng, len: usize, case_id: u64, replay_ops: Option<Vec<Op>>) {
     let table_id: [u8; 20] = if rng.chance(1, 4) { bep42_mint(pub_ip(rng), 3, rng.array()) } else { rng.array() };
     let mut hot: Vec<u8> = vec![160, 159, 158];
@@ -276,7 +318,9 @@ pub fn run_sequence(r: &mut Report, clock: &Clock, rng: &mut Rng, len: usize, ca
             }
             Op::Rekey { id } => {
                 reset_id(&mut table, Id::from(*id));
-                ordered_history = false;
+                if !before.nodes.is_empty() {
+                    ordered_history = false;
+                }
                 let after = view(&table);
                 if after.id != *id {
                     r.violation("rekey/id-not-set", "reset_id did not change the table id", case(), json!({}));
@@ -405,6 +449,9 @@ pub fn run(a: &Args) -> Report {
         let len = *rng.pick(&[30usize, 80, 200, 600, 1500]);
         let len = if a.quick() { len.min(600) } else { len };
         run_sequence(&mut r, &clock, &mut rng, len, mix(a.seed, a.shard << 32 | c), None);
+        if c % 4 == 0 {
+            refresh_order_sequence(&mut r, &clock, &mut rng, mix(a.seed, a.shard << 32 | c | 1 << 60));
+        }
     }
     set_env(None);
     r
